@@ -194,3 +194,15 @@ Fixpoint per_sink_search (fuel : nat) (g : graph) (q : nat) (ks : list nat) (dfl
     match filter_res (test_at_q fuel g q) (off_q (nv g) q k) with
     | OutOfFuel => OutOfFuel | Done [] => per_sink_search fuel g q t dflt | Done l => Done (k, l) end end.
 Definition per_sink (fuel : nat) (g : graph) (q : nat) (maxg : nat) : res (nat * list div) := per_sink_search fuel g q (seq 1 maxg) (S maxg).
+
+(* ---- recording variant of the EWD loop (visualize=True): the same computation, plus the list of snapshots taken on the way ---- *)
+Fixpoint reduce_loop_rec (fuel : nat) (g : graph) (q : nat) (ord : list nat) (D : div) (hist : list div) : res (div * list nat * list div) :=
+  match fuel with O => OutOfFuel | S f =>
+    match concentrate (S f) g q ord D with OutOfFuel => OutOfFuel | Done D1 =>
+      match unburnt_list g q D1 with
+      | [] => Done (D1, burn_list g q D1, hist ++ [D1])
+      | U => reduce_loop_rec f g q ord (fire_set g D1 U) (hist ++ [D1; fire_set g D1 U]) end end end.
+(* analysis calls as they act on the caller's divisor: the in-place family replaces it by the reduced divisor, the others leave it alone *)
+Inductive call := CReduce (q : nat) | CPure.
+Definition apply_call (fuel : nat) (g : graph) (D : div) (c : call) : div :=
+  match c with CPure => D | CReduce q => match ewd_q fuel g q D with Done (_, R, _) => R | OutOfFuel => D end end.
